@@ -132,14 +132,16 @@ type deferred struct {
 }
 
 type loopInfo struct {
-	header  *ssa.BasicBlock
-	ordinal int
-	body    map[*ssa.BasicBlock]bool
-	key     string
-	spec    *LoopSpec
-	phiVals map[*ssa.Phi]Val // havocked phi values (the arbitrary iteration)
-	headSt  *State           // state at head of arbitrary iteration (after assuming inv)
-	measure *Term
+	header    *ssa.BasicBlock
+	ordinal   int
+	body      map[*ssa.BasicBlock]bool
+	key       string
+	spec      *LoopSpec
+	phiVals   map[*ssa.Phi]Val // havocked phi values (the arbitrary iteration)
+	headSt    *State           // state at head of arbitrary iteration (after assuming inv)
+	entrySt   *State           // state in which the loop was entered
+	entryPhis map[*ssa.Phi]Val // header phi values on entry
+	measure   *Term
 }
 
 type retInfo struct {
@@ -683,6 +685,8 @@ func (x *Exec) enterLoop(fr *Frame, li *loopInfo, in *State, phiEntry map[*ssa.P
 		}
 	}
 	li.spec = ls
+	li.entrySt = in.Clone()
+	li.entryPhis = phiEntry
 	x.loopsSeen++
 	st := in.Clone()
 	// fresh values for header phis
@@ -924,6 +928,23 @@ func (x *Exec) closeLoop(fr *Frame, li *loopInfo, latch *ssa.BasicBlock, st *Sta
 // iterations of a range loop.
 func (x *Exec) loopEnv(fr *Frame, li *loopInfo, phis map[*ssa.Phi]Val, st *State) *SpecEnv {
 	env := x.frameEnv(fr, st)
+	if li.entrySt != nil && st != li.entrySt {
+		saved := map[*ssa.Phi]Val{}
+		for phi, v := range li.entryPhis {
+			saved[phi] = fr.env[phi]
+			fr.env[phi] = v
+		}
+		ee := x.frameEnv(fr, li.entrySt)
+		for phi, v := range li.entryPhis {
+			if phi.Comment != "" && phi.Comment != "rangeindex" && phi.Comment != "rangeint.iter" {
+				ee.Vars[phi.Comment] = SV{V: v, T: phi.Type()}
+			}
+		}
+		for phi, v := range saved {
+			fr.env[phi] = v
+		}
+		env.Entry = ee
+	}
 	for phi, v := range phis {
 		if phi.Comment == "rangeindex" {
 			if vi, ok := v.(VInt); ok {
